@@ -84,7 +84,7 @@ type world struct {
 
 func (w *world) violate(key, format string, args ...any) {
 	// when serving C05 only the consumer-order oracle counts (acceptance order, recovered chunks first); the rest is C03
-	if propFlag == "C05" && key != "order" {
+	if propFlag == "C05" && !strings.HasPrefix(key, "order") {
 		return
 	}
 	// when serving C19 only the counter oracles count
@@ -582,6 +582,13 @@ func drive(w *world) explore.Verdict {
 				g, dropped, newlyMissing, lostInQueue, p.queueCap)
 		}
 		if propFlag == "C19" && !consHung {
+			// dropped_chunks_total against the chunks that really went missing (the C03 ledger oracles under their C19 names)
+			if newlyMissing > dropped {
+				w.violate("metrics:buffer-dropped-vs-missing", "generation %d: %d chunks are neither confirmed nor on disk when Destroy returns, dropped_chunks_total=%d", g, newlyMissing, dropped)
+			}
+			if exactDrops && dropped > newlyMissing+lostInQueue {
+				w.violate("metrics:buffer-dropped-vs-missing", "generation %d: dropped_chunks_total=%d, only %d chunks went missing (+%d removed by the environment) and the queue cannot have overflowed", g, dropped, newlyMissing, lostInQueue)
+			}
 			// the buffer's counters against what the harness itself observed in this generation
 			confirmedByConsumer, handedBack := 0, 0
 			for _, ev := range cons.events {
@@ -627,6 +634,49 @@ func drive(w *world) explore.Verdict {
 		for i := 1; i < len(cons.seen); i++ {
 			if cons.seen[i-1] >= cons.seen[i] {
 				w.violate("order", "consumer saw %s before %s", cons.seen[i-1], cons.seen[i])
+			}
+		}
+		// ... also against the chunk files this generation found at startup: a file is offered only after every older file
+		// (no older file is skipped at recovery), and a chunk accepted in this generation only after ALL of them
+		{
+			var backlog []string
+			for id := range onDiskBefore {
+				if w.ledger[id] != nil {
+					backlog = append(backlog, id)
+				}
+			}
+			sort.Strings(backlog)
+			seenAt := map[string]int{}
+			for i, id := range cons.seen {
+				if _, dup := seenAt[id]; !dup {
+					seenAt[id] = i
+				}
+			}
+			inBacklog := map[string]bool{}
+			for _, id := range backlog {
+				inBacklog[id] = true
+			}
+			for i, id := range cons.seen {
+				for _, older := range backlog {
+					if older >= id && inBacklog[id] {
+						break
+					}
+					if at, ok := seenAt[older]; ok && at < i {
+						continue
+					}
+					if e := w.ledger[older]; e.envLost || len(e.data) == 0 {
+						continue // a damaged entry (empty file, removed or truncated by the environment) is never offered
+					}
+					if inBacklog[id] {
+						w.violate("order:recovery-skips-older-file", "generation %d: the consumer was offered the recovered chunk %s while the older chunk file %s, found at the same startup, had not been offered", g, id, older)
+					} else if len(backlog) > p.queueCap {
+						// more chunk files than the queue takes in at startup: the rest waits for a later start while new chunks go out
+						w.violate("order:new-chunk-before-backlog:over-full-directory", "generation %d: the consumer was offered chunk %s, accepted in this generation, while the older chunk file %s found at startup had not been offered (%d files found, queue capacity %d: the files beyond the capacity are left for a later start)", g, id, older, len(backlog), p.queueCap)
+					} else {
+						w.violate("order:new-chunk-before-backlog", "generation %d: the consumer was offered chunk %s, accepted in this generation, while the older chunk file %s found at startup had not been offered (%d files found, queue capacity %d)", g, id, older, len(backlog), p.queueCap)
+					}
+					break
+				}
 			}
 		}
 		if p.dirOK {
